@@ -206,6 +206,17 @@ impl ReadXml for EmptyReply {
                     tracing::debug!(?tag);
                     this = Some(Self::Ok);
                 }
+                // `<ok></ok>` is the same element as `<ok/>`
+                (ResolveResult::Bound(ns), Event::Start(tag))
+                    if ns == xmlns::BASE
+                        && tag.local_name().as_ref() == b"ok"
+                        && this.is_none()
+                        && errors.is_empty() =>
+                {
+                    tracing::debug!(?tag);
+                    _ = reader.read_to_end(tag.to_end().name())?;
+                    this = Some(Self::Ok);
+                }
                 (ResolveResult::Bound(ns), Event::Start(tag))
                     if ns == xmlns::BASE
                         && tag.local_name().as_ref() == b"rpc-error"
